@@ -202,9 +202,19 @@ def scan(P, R):
             res = t.ev['lhs']['name']
     R.ob('C11.GRD.1', idx is not None and res is not None, s, 'the scan applies the rule function to vec[%s] and keeps its result in %s' % (idx, res), key='scan-shape')
     gs = f.guards(s.bid)
-    R.ob('C11.GRD.1', any(is_var(g[0], res) and g[1] == '==' and const_of(g[2]) == 0 for g in gs), s, 'a rule is tried only while no earlier rule has hit', key='stop-at-first')
+    stop = any(is_var(g[0], res) and g[1] == '==' and const_of(g[2]) == 0 for g in gs)
+    if not stop and res is not None:
+        # `if (res != 0) return res;` after the call: the call cannot be reached again from the edge that saw a hit
+        hits = []
+        for bid in f.reachable_blocks():
+            for e in f.out[bid]:
+                r = rules.edge_rel(e)
+                if r and is_var(r[0], res) and const_of(r[2]) == 0 and r[1] == '!=':
+                    hits.append(e)
+        stop = bool(hits) and all(s.bid not in f.reach([e.dst]) for e in hits)
+    R.ob('C11.GRD.1', stop, s, 'a rule is tried only while no earlier rule has hit', key='stop-at-first')
     R.ob('C11.GRD.1', any(is_var(g[0], idx) and g[1] == '<' and on_path(g[2], 'used') for g in gs), s, 'the scan stays below the number of rules', key='scan-bound')
-    inits = [t for t in f.sites() if (t.ev['k'] == 'store' and is_var(t.ev.get('lhs'), idx) and t.ev.get('op') == '=') or (t.ev['k'] == 'decl' and t.ev.get('var') == idx)]
+    inits = [t for t in f.sites() if (t.ev['k'] == 'store' and is_var(t.ev.get('lhs'), idx) and t.ev.get('op') == '=') or (t.ev['k'] == 'decl' and t.ev.get('var') == idx and t.ev.get('init') is not None)]
     steps = [t for t in f.stores() if is_var(t.ev.get('lhs'), idx) and t.ev.get('op') not in ('=',)]
     R.ob('C11.GRD.1', bool(inits) and all(const_of(t.ev.get('rhs') if t.ev['k'] == 'store' else t.ev.get('init')) == 0 for t in inits) and len(steps) == 1 and steps[0].ev.get('op') == '++',
          steps[0] if steps else f, 'the scan starts at rule 0 and ascends one rule at a time', key='scan-order')
